@@ -41,6 +41,7 @@ def run_body(driver, table_or_seed, replay, extra):
     out["digest"] = rec.digest()
     out["nevents"] = rec.n
     out["decisions"] = dec.nonzero()
+    out["decisions"].update(out.pop("decisions_extra", None) or {})
     out["ndecisions"] = len(dec.taken)
     out["event_head"] = rec.head[:60]
     return out
